@@ -28,7 +28,7 @@ import (
 
 // gen: Generated/SdfExpr.v (newLineInfo, lineInfo.minDistance2, lineInfo.winding translated from the
 // current source; Sdf/GenEqPoly.v, an obligation of Props/C04.v) and the MatrixExpr.v it imports
-func main() { Main("C04", check, exprgen.Gen, sdfgen.Gen, stateGen) }
+func main() { Main("C04", check, stateGen, exprgen.Gen, sdfgen.Gen) }
 
 const imp = "From Sdfx Require Import Sdf.C04Corr.\nOpen Scope float_scope."
 
